@@ -95,8 +95,9 @@ def run_one(h, keys):
             pass
     d = os.path.join(CACHE, 'kani-src-%s' % hashlib.sha256(REPO.encode()).hexdigest()[:8], 'kani', crate)
     tgt = os.path.join(CACHE, 'kani-target-%s-%s' % (crate, hashlib.sha256(REPO.encode()).hexdigest()[:8]))
-    cmd = 'cd %s && CARGO_NET_OFFLINE=true CARGO_TARGET_DIR=%s timeout %d cargo kani -Z function-contracts -Z stubbing --harness %s' % (
-        d, tgt, h.get('timeout', 900), h['harness'])
+    # address-space cap (KB): a CBMC blow-up (64 GB seen once on a harness that normally needs 1 GB) ends as 'undecided' instead of taking the machine down
+    cmd = 'cd %s && ulimit -v %d && CARGO_NET_OFFLINE=true CARGO_TARGET_DIR=%s timeout %d cargo kani -Z function-contracts -Z stubbing --harness %s' % (
+        d, int(os.environ.get('VERIF_KANI_MEM_KB', 25165824)), tgt, h.get('timeout', 900), h['harness'])
     if h.get('extra'):
         cmd += ' ' + h['extra']
     t0 = time.time()
